@@ -3,7 +3,7 @@
 .PHONY: setup coq driver lint clean
 setup: coq driver
 coq:
-	cd coq && coq_makefile -f _CoqProject -o Makefile $$(find . -name '*.v' ! -name Extract.v | sort) && timeout 3000 $(MAKE) -k -j16
+	cd coq && coq_makefile -f _CoqProject -o Makefile $$(find . -name '*.v' | sort) && timeout 3000 $(MAKE) -k -j16
 driver:
 	python3 -c "import sys; sys.path.insert(0,'lib'); import common; print(common.build_driver())"
 lint:
